@@ -249,6 +249,10 @@ def work(lines):
             cnt["acc"] += 1
         else:
             cnt["rej"] += 1
+            cnt["why:" + ref[2]] = cnt.get("why:" + ref[2], 0) + 1
+        for q in outs:
+            for dname in q[0]:
+                cnt["dev:" + dname] = cnt.get("dev:" + dname, 0) + 1
         h = zlib.crc32(json.dumps(toks).encode())
         lays = [layouts[0]] + ([layouts[1 + h % (len(layouts) - 1)]] if len(layouts) > 1 and ctx["nlay"] == 2 else layouts[1:ctx["nlay"]])
         sufs = [""]
